@@ -82,8 +82,11 @@ def alternative_or_next(type_: Union[RDREdge.Alternative, RDREdge.Next],
     current_node = SymbolicExpression._current_parent_()
     if isinstance(current_node._parent_, (Alternative, Next)):
         current_node = current_node._parent_
-    elif isinstance(current_node._parent_, ExceptIf) and current_node is current_node._parent_.left:
-        current_node = current_node._parent_
+    else:
+        # a refined node is the left operand of its except-if; every further refinement of the same node wraps one more
+        # except-if around it, and the alternative is an alternative to the node with all of its refinements.
+        while isinstance(current_node._parent_, ExceptIf) and current_node is current_node._parent_.left:
+            current_node = current_node._parent_
     # The node may already head a chain of alternatives: the new branch extends the whole chain, not its first link
     # (otherwise a third alternative would replace the second one).
     while isinstance(current_node._parent_, (Alternative, Next)) and current_node is current_node._parent_.left:
